@@ -625,7 +625,8 @@ fn lex_line(
 											break;
 										}
 									}
-									if !is_closed
+									// At most six digits, as in the second generation.
+									if !is_closed || literal.len() > 6
 									{
 										literal.clear();
 									}
